@@ -148,10 +148,8 @@ def cases(tier, seed):
         for t in DISPLAY_LIKE:
             for lab, mk in shared_w:
                 key = "prod_wrap_%s_%s" % (SHORT[t], lab)
-                if t == "Pointer":
-                    continue                     # implicit single-field variants under Pointer: see wrap_ptr_implicit_single
                 add(key, t, mk(), pool_mixed(TY[t], t == "Display"))
-            add("prod_wrap_%s_field" % SHORT[t], t, Attr([P("_0", TY[t]), P("_variant")]), pool_tuple(False) if t != "Pointer" else pool_tuple(False)[1:])
+            add("prod_wrap_%s_field" % SHORT[t], t, Attr([P("_0", TY[t]), P("_variant")]), pool_tuple(False))
             add("prod_dflt_%s_field" % SHORT[t], t, Attr(["d", P("_0", TY[t])]), pool_tuple(True))
             add("prod_dflt_%s_named" % SHORT[t], t, Attr([P("x", TY[t])]), pool_named(True))
         for c in ("lowercase", "UPPERCASE", "PascalCase", "SCREAMING_SNAKE_CASE"):
